@@ -115,6 +115,7 @@ func oracle(s spec) func(c *gridx.Case, r *vf.Rec) {
 		}
 		state := c.Init
 		moved := false
+		chainScale := 0.0 // the largest mass handled so far in this chain: round-off residue of an earlier step is relative to it
 		for t := 0; t < c.T; t++ {
 			seg := c.RunSeg(t, t+1, state)
 			v := &stepView{p: p, in: map[string]float64{}, out: map[string]float64{}, before: seg.Init, after: seg.States, dt: dt}
@@ -139,6 +140,8 @@ func oracle(s spec) func(c *gridx.Case, r *vf.Rec) {
 			}
 			b := s.f(v)
 			scale := math.Max(math.Max(b.in, b.out), math.Max(math.Abs(b.sBefore), math.Abs(b.sAfter)))
+			chainScale = math.Max(chainScale, scale)
+			scale = chainScale
 			tol := 1e-9*scale + 1e-12
 			resid := b.sBefore + b.in - b.out - b.sAfter // > 0: mass lost, < 0: mass created
 			if b.in > 0 || b.sBefore > 0 {
